@@ -205,8 +205,11 @@ def w_long(case):
     n = case['n']
     base = np.array(case['base'], dtype=float)
     obase = np.array(case['obase'], dtype=float)
-    ybar = case['mag'] * base[np.arange(n) % len(base)]
-    y = case['mag'] * obase[(np.arange(n) * 2 + 1) % len(obase)]
+    # (offset: outputs and observations far from zero while their difference stays
+    # of the order of the noise scale)
+    off = case.get('offset', 0.0)
+    ybar = off + case['mag'] * base[np.arange(n) % len(base)]
+    y = off + case['mag'] * obase[(np.arange(n) * 2 + 1) % len(obase)]
     S = np.array(case['sens'], dtype=float)[
         np.arange(n * case['p']) % len(case['sens'])].reshape(n, case['p']) \
         * case['mag']
@@ -443,6 +446,15 @@ def build(tier, seed):
                             'model': model, 'n': n, 'mag': mag, 'p': p,
                             'params': list(params), 'base': pos, 'obase': obs_pos,
                             'sens': sens_alpha})
+    for model in ref.MODELS:
+        for n in (12, 40):
+            for off in (1e5, 1e8):
+                for params in itertools.product(*[a[:2] for a in scale[model]]):
+                    for p in (0, 2):
+                        long_cases.append({
+                            'model': model, 'n': n, 'mag': 1.0, 'p': p,
+                            'offset': off, 'params': list(params), 'base': pos,
+                            'obase': obs_pos, 'sens': sens_alpha})
     # ReducedErrorModel fix histories with evaluation after every call
     red_cases = []
     depth = 2 if tier == 'quick' else 3
@@ -519,3 +531,7 @@ META = {
                   'class documentation. Outputs that would make the documented '
                   'standard deviation non-positive are not enumerated.',
 }
+META['level_text'] += (
+    ' Also: every proper subset of the arguments integer-typed (arrays and lists), '
+    'results handed out earlier kept and compared, outputs at 1e5 / 1e8 with residu'
+    'als of noise size.')
